@@ -4,7 +4,9 @@
    axis-letter table and strain_increment (over the eigenvalue oracle) are GENERATED from
    /repo on every run (gen/Gen_velocity.v, gen/Gen_velocity_utils.v); the public wrappers,
    _is_inside, _ivp_func, the stateful terminal event and the time-stamp post-processing are
-   the hand-written Model_pathlines.v.  flow: 0 simple_shear_2d, 1 cell_2d, 2 corner_2d;
+   the hand-written Model_pathlines.v, which the instance lemmas of Inst_pathlines.v equate (at
+   dimensions 1, 2, 3 / 1, 2, 3 solver time stamps) with gen/Gen_pathlines.v, GENERATED from
+   pydrex/pathlines.py on every run (the `C18_generated_*` statements are about that code).  flow: 0 simple_shear_2d, 1 cell_2d, 2 corner_2d;
    letters: 0 X, 1 Y, 2 Z.  A gradient G is a flat row-major 3x3 array: entry (k,m) = G(3k+m).
    `upd x m s` is x with coordinate m replaced by s, so
    `is_derive (fun s => field (upd x m s) k) (x m) g` says  d field_k / d x_m (x) = g.
@@ -16,7 +18,8 @@ From Coq Require Import Reals ZArith List.
 From Coquelicot Require Import Coquelicot.
 From PV Require Import Num NumR Model_pathlines Proofs_velocity Proofs_pathlines.
 From PV Require Import Model_pathline_session Proofs_pathline_session.
-From PV.gen Require Import Gen_velocity Gen_velocity_utils.
+From PV Require Import Inst_velocity Inst_pathlines Proofs_pathline_gen Proofs_pathline_exact.
+From PV.gen Require Import Gen_velocity Gen_velocity_utils Gen_pathlines.
 Import ListNotations.
 Open Scope R_scope.
 
@@ -43,13 +46,15 @@ Theorem C18_cell_negative_edge_rejected : forall hl vl (u d : R), d < 0 ->
 Proof. exact cell_negative_edge_rejected. Qed.
 
 (* --- corner flow: the full statement ---------------------------------------------------- *)
-(* all six ordered axis pairs, every plate speed, every point with vertical coordinate < 0
-   outside the excluded box |h|,|v| < 1e-15: the velocity callable is the closed-form field,
+(* all six ordered axis pairs, every plate speed, every point outside the excluded box
+   |h|,|v| < 1e-15 that is not on the half line { h = 0, v >= 0 } (`corner_smooth`: v < 0 or
+   h <> 0 -- this contains the whole physical domain v <= 0, see C18_corner_domain_smooth, incl.
+   every neighbourhood of the corner singularity): the velocity callable is the closed-form field,
    every entry of the gradient callable is the corresponding partial derivative of that
    field, and the gradient is trace-free *)
 Theorem C18_corner_grad_is_jacobian : forall (hl vl : Z) (U t : R) (x : arr R) i j,
   letter_ok hl -> letter_ok vl -> @wrapper_indices NumR 2 hl vl [U] = Ok (i, j) ->
-  ~ corner_hole (x i) (x j) -> x j < 0 ->
+  ~ corner_hole (x i) (x j) -> corner_smooth (x i) (x j) ->
   exists a G, @wrapper_velocity NumR 2 hl vl [U] t x = Ok a /\
               @wrapper_gradient NumR 2 hl vl [U] t x = Ok G /\
     (forall k, (k < 3)%nat -> a k = corner_field i j U x k) /\
@@ -57,6 +62,17 @@ Theorem C18_corner_grad_is_jacobian : forall (hl vl : Z) (U t : R) (x : arr R) i
        is_derive (fun s => corner_field i j U (upd x m s) k) (x m) (G (3 * k + m)%nat)) /\
     G 0%nat + G 4%nat + G 8%nat = 0.
 Proof. exact corner_grad_is_jacobian_proof. Qed.
+
+(* the physical domain (at or below the surface, outside the hole) lies in the smooth region ... *)
+Theorem C18_corner_domain_smooth : forall h v : R, v <= 0 -> ~ corner_hole h v -> corner_smooth h v.
+Proof. exact corner_domain_smooth. Qed.
+
+(* ... and the exclusion of the half line above the surface is necessary: there the velocity callable
+   jumps by more than 3 U across h = 0 (branch cut of atan2), so it has no partial derivative *)
+Theorem C18_corner_cut_refuted : forall U v : R, 0 < v -> 0 < U ->
+  (forall h, h < 0 -> corner_uh U 0 v - corner_uh U h v > 3 * U) /\
+  ~ exists g, is_derive (fun s => corner_uh U s v) 0 g.
+Proof. exact (fun U v Hv HU => conj (fun h => corner_cut_jump U v h Hv HU) (corner_cut_not_derivable U v Hv HU)). Qed.
 
 (* the field IS the velocity callable on its whole domain (needed to read the theorem above
    as a statement about the callable; the field is defined with atan2, as the source is) *)
@@ -263,3 +279,229 @@ Example C18_session_nonvacuous :
   ((forall a b, Z.eqb a b = true <-> a = b) /\
    (forall a b, toy_key a = toy_key b -> toy_solve_flow a = toy_solve_flow b)).
 Proof. exact session_hypotheses_satisfiable. Qed.
+
+(* --- pydrex.pathlines as GENERATED from the source (gen/Gen_pathlines.v) ------------------- *)
+(* `A l` is the array of the list l; `lift_v 3 gv` / `lift_g 3 gg` are the user callables reading
+   their point from an array.  Points of dimension 3. *)
+Theorem C18_generated_is_inside : forall pt mn mx : list R,
+  length pt = 3%nat -> length mn = 3%nat -> length mx = 3%nat ->
+  (in_box pt mn mx -> @k_is_inside_n3 NumR (A pt) (A mn) (A mx) = 1) /\
+  (~ in_box pt mn mx -> @k_is_inside_n3 NumR (A pt) (A mn) (A mx) = 0).
+Proof. exact gen_is_inside_spec. Qed.
+
+(* the three size mismatches that were traced: the assertion fires for all values *)
+Theorem C18_generated_is_inside_sizes : forall pt mn mx : arr R,
+  @k_is_inside_n3_3_2 NumR pt mn mx = Err AssertionError /\
+  @k_is_inside_n3_2_3 NumR pt mn mx = Err AssertionError /\
+  @k_is_inside_n2_3_3 NumR pt mn mx = Err AssertionError.
+Proof. exact gen_is_inside_sizes. Qed.
+
+Theorem C18_generated_ivp_func : forall (pt mn mx : list R),
+  length pt = 3%nat -> length mn = 3%nat -> length mx = 3%nat ->
+  forall (t : R) (gv : list R -> res (list R)) (gg : arr R -> res (arr R)),
+  (in_box pt mn mx ->
+     @k_ivp_func_n3 NumR t (A pt) (lift_v 3 gv) gg (A mn) (A mx) = res_map A (gv pt)) /\
+  (~ in_box pt mn mx ->
+     @k_ivp_func_n3 NumR t (A pt) (lift_v 3 gv) gg (A mn) (A mx) = Ok (A [0; 0; 0])).
+Proof. exact gen_ivp_func_spec. Qed.
+
+(* the Jacobian handed to the solver is the velocity-GRADIENT callable inside the box (hence 2 x the
+   Jacobian of the right-hand side for simple shear, see the known findings), zeros outside *)
+Theorem C18_generated_ivp_jac : forall (pt mn mx : list R),
+  length pt = 3%nat -> length mn = 3%nat -> length mx = 3%nat ->
+  forall (t : R) (gv : arr R -> res (arr R)) (gg : list R -> res (arr R)),
+  (in_box pt mn mx ->
+     @k_ivp_jac_n3 NumR t (A pt) gv (lift_g 3 gg) (A mn) (A mx) = gg pt) /\
+  (~ in_box pt mn mx ->
+     exists Z, @k_ivp_jac_n3 NumR t (A pt) gv (lift_g 3 gg) (A mn) (A mx) = Ok Z /\ forall k, Z k = 0).
+Proof. exact gen_ivp_jac_spec. Qed.
+
+Theorem C18_ivp_jac_spec : forall (get_gradient : list R -> res (arr R)) (pt mn mx : list R),
+  length pt = length mn -> length mn = length mx ->
+  (in_box pt mn mx -> @ivp_jac NumR get_gradient mn mx pt = get_gradient pt) /\
+  (~ in_box pt mn mx ->
+     exists Z, @ivp_jac NumR get_gradient mn mx pt = Ok Z /\ forall k, Z k = 0).
+Proof. exact ivp_jac_spec_proof. Qed.
+
+(* ONE call of the generated event closure is one step of the state machine (any state, any call) *)
+Theorem C18_generated_event_step :
+  forall (tp s t : R) (gv : arr R -> res (arr R)) (gg : list R -> res (arr R)) (eig : arr R -> R) (pt mn mx : list R),
+  length pt = 3%nat -> length mn = 3%nat -> length mx = 3%nat ->
+  @k_terminate_n3 NumR tp s t (A pt) gv (lift_g 3 gg) eig (A mn) (A mx)
+  = res_map ev_out (@ev_step NumR gg eig mn mx (@mk_ev NumR tp s) (t, pt)).
+Proof. exact terminate_inst_3. Qed.
+
+(* any HISTORY of calls of the generated closure, its two `nonlocal` variables threaded from call
+   to call: along monotonically backward in-domain calls it returns max_strain minus the running
+   Riemann sum of the strain rate *)
+Theorem C18_generated_event_history :
+  forall (gv : arr R -> res (arr R)) (gg : list R -> res (arr R)) (eig : arr R -> R) (mn mx : list R),
+  length mn = 3%nat -> length mx = 3%nat ->
+  forall (calls : list (R * list R)) (tp s : R),
+  List.Forall (fun c => length (snd c) = 3%nat) calls ->
+  List.Forall (good_call gg mn mx) calls -> backward tp calls ->
+  gen_event_run gv (lift_g 3 gg) eig (A mn) (A mx) tp s calls
+  = Ok (last (map fst calls) tp, s - riemann gg eig tp calls, back_values gg eig tp s calls).
+Proof. exact gen_event_monotone. Qed.
+
+(* the strain clause as far as the event semantics gives it: started from (0, max_strain), if the last
+   returned value is not below -max_strain/4 the Riemann sum of the strain rate over the calls is at most
+   1.25 max_strain (that the solver's accepted steps form such a history, and Riemann sum vs integral,
+   are NOT proved: measured) *)
+Theorem C18_generated_event_strain_bound :
+  forall (gv : arr R -> res (arr R)) (gg : list R -> res (arr R)) (eig : arr R -> R) (mn mx : list R),
+  length mn = 3%nat -> length mx = 3%nat ->
+  forall (calls : list (R * list R)) (ms a b : R) (vs : list R),
+  List.Forall (fun c => length (snd c) = 3%nat) calls ->
+  List.Forall (good_call gg mn mx) calls -> backward 0 calls ->
+  gen_event_run gv (lift_g 3 gg) eig (A mn) (A mx) 0 ms calls = Ok (a, b, vs) ->
+  b = ms - riemann gg eig 0 calls /\ last vs ms = b /\
+  (- ms / 4 <= b -> riemann gg eig 0 calls <= 1.25 * ms) /\ (b = 0 -> riemann gg eig 0 calls = ms).
+Proof. exact gen_event_strain_bound. Qed.
+
+(* what get_pathline asks solve_ivp for (vector layout: Model_pathlines.solver_request) *)
+Theorem C18_generated_request : forall (fl mn mx : list R) (ms : R), length fl = 3%nat ->
+  let rq := @k_request_n3 NumR (A fl) (A mn) (A mx) ms in
+  rq 0%nat = 0 /\ rq 1%nat < 0 /\ rq 2%nat = 2 /\ [rq 3%nat; rq 4%nat; rq 5%nat] = fl /\
+  0 < rq 6%nat /\ 0 < rq 7%nat /\ rq 8%nat = 5 /\ rq 9%nat = 1 /\ rq 10%nat = 1 /\ rq 11%nat = 0 /\
+  rq 12%nat = 1 /\ rq 13%nat = 1 /\ rq 14%nat = 1 /\ rq 15%nat = 1 /\ rq 16%nat = 0 /\ rq 17%nat = 0 /\
+  rq 18%nat = 0 /\ rq 19%nat = 0 /\ rq 20%nat = ms /\ rq 21%nat = 0.
+Proof. exact gen_request_spec. Qed.
+
+Theorem C18_generated_request_kwargs : forall (fl mn mx : list R) (ms atol rtol fs mxs : R), length fl = 3%nat ->
+  let rq := @k_request_kw_n3 NumR (A fl) (A mn) (A mx) ms atol rtol fs mxs in
+  let rq0 := @k_request_n3 NumR (A fl) (A mn) (A mx) ms in
+  rq 6%nat = atol /\ rq 7%nat = rtol /\ rq 8%nat = 3 /\ rq 16%nat = fs /\ rq 17%nat = mxs /\ rq 21%nat = 4 /\
+  forall k, (k < 22)%nat -> k <> 6%nat -> k <> 7%nat -> k <> 8%nat -> k <> 16%nat -> k <> 17%nat -> k <> 21%nat ->
+            rq k = rq0 k.
+Proof. exact gen_request_kw_spec. Qed.
+
+(* the generated post-processing at three solver time stamps is the list model (all 15 instances are in
+   Inst_pathlines.v; regular_steps = 0 returns the single EARLIEST time, not 0) *)
+Theorem C18_generated_timestamps : forall ts : list R, length ts = 3%nat ->
+  @k_post_m3_none NumR (A ts) = A (@timestamps NumR ts None) /\
+  @k_post_m3_s2 NumR (A ts) = A (@timestamps NumR ts (Some 2%nat)) /\
+  @k_post_m3_s0 NumR (A ts) = A [last ts 0].
+Proof. exact gen_timestamps_m3. Qed.
+
+(* solve_ivp as an oracle (ts = path.t, sol = path.sol); hypotheses relative to the GENERATED request,
+   each checked on the real routine at run time: the integration starts at t_span[0], proceeds towards
+   t_span[1], and the dense output at the start reproduces y0.  Then the returned time stamps are
+   strictly increasing and end at 0, and the returned interpolant at the last time stamp IS the requested
+   final location *)
+Theorem C18_pathline_ends_at_final_location :
+  forall (fl mn mx : list R) (ms : R) (ts : list R) (sol : R -> list R) (steps : option nat),
+  length fl = 3%nat ->
+  let rq := @k_request_n3 NumR (A fl) (A mn) (A mx) ms in
+  hd 0 ts = rq 0%nat ->
+  (rq 1%nat < rq 0%nat -> strictly_decreasing ts) ->
+  sol (rq 0%nat) = [rq 3%nat; rq 4%nat; rq 5%nat] ->
+  (2 <= length ts)%nat -> (steps = None \/ exists n, steps = Some n /\ (0 < n)%nat) ->
+  let out := @timestamps NumR ts steps in
+  strictly_increasing out /\ last out 0 = 0 /\ sol (last out 0) = fl.
+Proof. exact pathline_ends_at_final_proof. Qed.
+
+Example C18_pathline_nonvacuous :
+  (let fl := [1; 2; 3] in let ts := [0; -1] in let sol := fun _ : R => fl in
+   let rq := @k_request_n3 NumR (A fl) (A [0; 0; 0]) (A [4; 4; 4]) 1 in
+   hd 0 ts = rq 0%nat /\ (rq 1%nat < rq 0%nat -> strictly_decreasing ts) /\
+   sol (rq 0%nat) = [rq 3%nat; rq 4%nat; rq 5%nat] /\ (2 <= length ts)%nat) /\
+  (let calls := [(-1, [1 / 2; 0; 0]); (-2, [1 / 4; 0; 0])] in
+   List.Forall (fun c : R * list R => length (snd c) = 3%nat) calls /\
+   List.Forall (good_call toy_gradient3 [-1; -1; -1] [1; 1; 1]) calls /\ backward 0 calls /\
+   riemann toy_gradient3 toy_eigmax 0 calls = 3 / 4).
+Proof. exact (conj pathline_hypotheses_satisfiable event_history_hypotheses_satisfiable). Qed.
+
+(* --- the PUBLIC wrappers as GENERATED from the source (all 36 letter pairs "XYZxyz") -------- *)
+(* k_<flow>_wrap_u / _L: the real simple_shear_2d / cell_2d / corner_2d called with the two letters, then
+   the first / second returned callable applied to (t, x).  `fold_case` maps x y z to X Y Z. *)
+Theorem C18_generated_wrappers : forall (hl vl : Z) (p q t : R) (x : arr R), letter6_ok hl -> letter6_ok vl ->
+  let h := fold_case hl in let v := fold_case vl in
+  @k_simple_shear_2d_wrap_u NumR hl vl p t x = @wrapper_velocity NumR 0 h v [p] t x /\
+  @k_simple_shear_2d_wrap_L NumR hl vl p t x = @wrapper_gradient NumR 0 h v [p] t x /\
+  @k_cell_2d_wrap_u NumR hl vl p q t x = @wrapper_velocity NumR 1 h v [p; q] t x /\
+  @k_cell_2d_wrap_L NumR hl vl p q t x = @wrapper_gradient NumR 1 h v [p; q] t x /\
+  @k_cell_2d_wrap_u_default NumR hl vl p t x = @wrapper_velocity NumR 1 h v [p; 2] t x /\
+  @k_cell_2d_wrap_L_default NumR hl vl p t x = @wrapper_gradient NumR 1 h v [p; 2] t x /\
+  @k_corner_2d_wrap_u NumR hl vl p t x = @wrapper_velocity NumR 2 h v [p] t x /\
+  @k_corner_2d_wrap_L NumR hl vl p t x = @wrapper_gradient NumR 2 h v [p] t x.
+Proof. exact gen_wrappers. Qed.
+
+Theorem C18_generated_bad_letter : forall (hl vl : Z) (p q t : R) (x : arr R), ~ letter6_ok hl ->
+  @k_simple_shear_2d_wrap_u NumR hl vl p t x = Err ValueError /\ @k_cell_2d_wrap_u NumR hl vl p q t x = Err ValueError /\
+  @k_corner_2d_wrap_u NumR hl vl p t x = Err ValueError.
+Proof. exact wrap_bad_letter. Qed.
+
+(* what holds of the two defective flows (`_partial`, KNOWN FINDINGS), about the generated public wrappers *)
+Theorem C18_generated_shear_partial : forall (hl vl : Z) (rate t : R) (x : arr R) i j,
+  letter6_ok hl -> letter6_ok vl ->
+  @wrapper_indices NumR 0 (fold_case hl) (fold_case vl) [rate] = Ok (i, j) ->
+  exists a G, @k_simple_shear_2d_wrap_u NumR hl vl rate t x = Ok a /\
+              @k_simple_shear_2d_wrap_L NumR hl vl rate t x = Ok G /\
+    (forall k, (k < 3)%nat -> a k = shear_field i j rate x k) /\
+    (forall k m, (k < 3)%nat -> (m < 3)%nat ->
+       exists J, is_derive (fun s => shear_field i j rate (upd x m s) k) (x m) J /\
+                 G (3 * k + m)%nat = 2 * J) /\
+    G 0%nat + G 4%nat + G 8%nat = 0.
+Proof. exact gen_shear_partial. Qed.
+
+Theorem C18_generated_cell_partial : forall (hl vl : Z) (u d t : R) (x : arr R) i j,
+  letter6_ok hl -> letter6_ok vl ->
+  @wrapper_indices NumR 1 (fold_case hl) (fold_case vl) [u; d] = Ok (i, j) ->
+  in_cell d (x i) (x j) ->
+  exists a G, @k_cell_2d_wrap_u NumR hl vl u d t x = Ok a /\
+              @k_cell_2d_wrap_L NumR hl vl u d t x = Ok G /\
+    (forall k, (k < 3)%nat -> a k = cell_field i j u d x k) /\
+    (forall k m, (k < 3)%nat -> (m < 3)%nat -> k <> j ->
+       is_derive (fun s => cell_field i j u d (upd x m s) k) (x m) (G (3 * k + m)%nat)) /\
+    is_derive (fun s => cell_field i j u d (upd x i s) j) (x i) (G (3 * j + j)%nat) /\
+    is_derive (fun s => cell_field i j u d (upd x j s) j) (x j) (G (3 * j + i)%nat) /\
+    (forall m, (m < 3)%nat -> m <> i -> m <> j -> G (3 * j + m)%nat = 0).
+Proof. exact gen_cell_partial. Qed.
+
+(* the full statement of the property for the corner flow, about the generated public wrappers *)
+Theorem C18_generated_corner_grad_is_jacobian : forall (hl vl : Z) (U t : R) (x : arr R) i j,
+  letter6_ok hl -> letter6_ok vl ->
+  @wrapper_indices NumR 2 (fold_case hl) (fold_case vl) [U] = Ok (i, j) ->
+  ~ corner_hole (x i) (x j) -> corner_smooth (x i) (x j) ->
+  exists a G, @k_corner_2d_wrap_u NumR hl vl U t x = Ok a /\
+              @k_corner_2d_wrap_L NumR hl vl U t x = Ok G /\
+    (forall k, (k < 3)%nat -> a k = corner_field i j U x k) /\
+    (forall k m, (k < 3)%nat -> (m < 3)%nat ->
+       is_derive (fun s => corner_field i j U (upd x m s) k) (x m) (G (3 * k + m)%nat)) /\
+    G 0%nat + G 4%nat + G 8%nat = 0.
+Proof. exact gen_corner_grad_is_jacobian. Qed.
+
+(* --- exact solutions of the problem get_pathline poses ------------------------------------- *)
+(* x solves dx/dt = _ivp_func(x) on [a, 0] (any velocity callable, any box, any dimension) and ends
+   inside the closed box: then it is inside the box at EVERY time.  (_ivp_func is exactly 0 outside:
+   a point outside cannot move, so it would still be outside at t = 0.)  The "stays inside the domain
+   box" clause for the exact solution; LSODA's deviation from it is measured. *)
+Theorem C18_exact_pathline_stays_in_box :
+  forall (gv : list R -> res (list R)) (mn mx : list R) (x : R -> list R) (a : R),
+  length mn = length mx ->
+  (forall t, a <= t <= 0 -> length (x t) = length mn /\
+     exists v, @ivp_func NumR gv mn mx (x t) = Ok v /\
+       forall k, (k < length mn)%nat -> is_derive (fun s => nth k (x s) 0) t (nth k v 0)) ->
+  in_box (x 0) mn mx ->
+  forall t, a <= t <= 0 -> in_box (x t) mn mx.
+Proof. exact exact_pathline_stays_in_box. Qed.
+
+(* the same with the right-hand side GENERATED from the source (dimension 3) *)
+Theorem C18_generated_exact_pathline_stays_in_box :
+  forall (gv : list R -> res (list R)) (gg : arr R -> res (arr R)) (mn mx : list R) (x : R -> list R) (a : R),
+  length mn = 3%nat -> length mx = 3%nat ->
+  (forall t, a <= t <= 0 -> length (x t) = 3%nat /\
+     exists v, @k_ivp_func_n3 NumR t (A (x t)) (lift_v 3 gv) gg (A mn) (A mx) = Ok v /\
+       forall k, (k < 3)%nat -> is_derive (fun s => nth k (x s) 0) t (v k)) ->
+  in_box (x 0) mn mx ->
+  forall t, a <= t <= 0 -> in_box (x t) mn mx.
+Proof. exact gen_exact_pathline_stays_in_box. Qed.
+
+Example C18_exact_nonvacuous :
+  let gv := fun _ : list R => Ok [0; 0; 0] in let x := fun _ : R => [0; 0; 0] in
+  let mn := [-1; -1; -1] in let mx := [1; 1; 1] in
+  forall t : R, -1 <= t <= 0 -> length (x t) = length mn /\
+     exists v, @ivp_func NumR gv mn mx (x t) = Ok v /\
+       forall k, (k < length mn)%nat -> is_derive (fun s => nth k (x s) 0) t (nth k v 0).
+Proof. exact exact_hypotheses_satisfiable. Qed.
